@@ -422,3 +422,48 @@ Proof.
   - apply insert_b_comm.
   - congruence.
 Qed.
+
+(** ** Reading the escaped text back: every character is recovered, except that a backslash reads as an apostrophe *)
+From Cteepbd Require Import Model.Parse.
+Fixpoint unescape_fuel (fuel : nat) (s : bytes) : bytes :=
+  match fuel with
+  | O => []
+  | S f =>
+      match s with
+      | [] => []
+      | c :: r =>
+          if c =? 38 then
+            if starts_with [97; 109; 112; 59] r then 38 :: unescape_fuel f (skipn 4 r)
+            else if starts_with [108; 116; 59] r then 60 :: unescape_fuel f (skipn 3 r)
+            else if starts_with [103; 116; 59] r then 62 :: unescape_fuel f (skipn 3 r)
+            else if starts_with [97; 112; 111; 115; 59] r then 39 :: unescape_fuel f (skipn 5 r)
+            else if starts_with [113; 117; 111; 116; 59] r then 34 :: unescape_fuel f (skipn 5 r)
+            else c :: unescape_fuel f r
+          else c :: unescape_fuel f r
+      end
+  end.
+Definition unescape (s : bytes) : bytes := unescape_fuel (length s) s.
+Definition as_read (c : N) : N := if c =? 92 then 39 else c.
+
+Lemma unescape_esc l : forall fuel, (length (flat_map esc1 l) <= fuel)%nat -> unescape_fuel fuel (flat_map esc1 l) = map as_read l.
+Proof.
+  induction l as [|c l IH]; intros fuel Hf.
+  - destruct fuel; reflexivity.
+  - cbn [flat_map map]. unfold esc1 at 1. unfold as_read at 1.
+    cbn [flat_map] in Hf. rewrite app_length in Hf. unfold esc1 at 1 in Hf.
+    destruct (N.eqb_spec c 38) as [->|N1].
+    { cbn in Hf. destruct fuel as [|f]; [lia|]. cbn. f_equal. apply IH. lia. }
+    destruct (N.eqb_spec c 60) as [->|N2].
+    { cbn in Hf. destruct fuel as [|f]; [lia|]. cbn. f_equal. apply IH. lia. }
+    destruct (N.eqb_spec c 62) as [->|N3].
+    { cbn in Hf. destruct fuel as [|f]; [lia|]. cbn. f_equal. apply IH. lia. }
+    destruct (N.eqb_spec c 92) as [->|N4].
+    { cbn in Hf. destruct fuel as [|f]; [lia|]. cbn. f_equal. apply IH. lia. }
+    destruct (N.eqb_spec c 34) as [->|N5].
+    { cbn in Hf. destruct fuel as [|f]; [lia|]. cbn. f_equal. apply IH. lia. }
+    cbn [length app] in Hf. destruct fuel as [|f]; [lia|]. cbn [app unescape_fuel].
+    destruct (N.eqb_spec c 38); [contradiction|]. f_equal. apply IH. lia.
+Qed.
+
+Theorem unescape_escape s : unescape (escape_xml s) = map as_read (fix_chars s).
+Proof. unfold unescape. rewrite escape_one_pass. apply unescape_esc. apply Nat.le_refl. Qed.
